@@ -22,7 +22,7 @@ pub fn meta() -> CheckMeta {
 }
 
 pub fn n_runs(tier: &str) -> u64 {
-    if tier == "quick" { 6_000 } else { 400_000 }
+    if tier == "quick" { 6_000 } else { 250_000 }
 }
 
 pub fn gen(tier: &str, seed: u64, idx: u64, base: u64) -> Spec {
@@ -133,7 +133,25 @@ pub fn exec(spec: &Spec, r: &mut RunResult) {
                 _ => {}
             }
             r.bump("c10.compared", 1);
-            if out != fresh {
+            // the ORDER in which answers are enumerated is not part of the property: compare as multisets
+            let norm = |o: &Out| -> Out {
+                match o {
+                    Out::Multi { answers, completed } => {
+                        let mut a: Vec<(MultiAns, bool)> = answers.iter().map(|(x, _)| (x.clone(), false)).collect();
+                        a.sort_by_key(|(x, _)| fmt_multi(x));
+                        Out::Multi { answers: a, completed: *completed }
+                    }
+                    o => o.clone(),
+                }
+            };
+            let limit = |p: &std::collections::BTreeMap<&'static str, u64>| p.get("solve.needs_truncation").cloned().unwrap_or(0) > 0 || p.get("slg.table_floundered").cloned().unwrap_or(0) > 0;
+            let fresh_limit = limit(&memo.get(&l, &cfg, op.goal, &op.kind, spec.budget).1.probes);
+            if norm(&out) != norm(&fresh) && (limit(&st.probes) || fresh_limit) {
+                // a size limit fired: where a growing type gets cut depends on the path taken (C13's and C02's carve-out)
+                r.bump("excluded.limit_reached_probe", 1);
+                continue;
+            }
+            if norm(&out) != norm(&fresh) {
                 let detail = format!(
                     "op #{} {} {:?} goal `{}`: warm answer `{}` but a fresh solver answers `{}`",
                     oi,
@@ -178,8 +196,13 @@ pub fn exec(spec: &Spec, r: &mut RunResult) {
             if l.goals.get(gi).and_then(|g| g.as_ref()).is_none() {
                 continue;
             }
-            let on = memo.get(&l, &SlotCfg::rec(), gi, &OpKind::Solve, spec.budget).0.clone();
-            let off = memo.get(&l, &SlotCfg::rec_nocache(), gi, &OpKind::Solve, spec.budget).0.clone();
+            let (on, on_st) = memo.get(&l, &SlotCfg::rec(), gi, &OpKind::Solve, spec.budget).clone();
+            let (off, off_st) = memo.get(&l, &SlotCfg::rec_nocache(), gi, &OpKind::Solve, spec.budget).clone();
+            let lim = |p: &std::collections::BTreeMap<&'static str, u64>| p.get("solve.needs_truncation").cloned().unwrap_or(0) > 0;
+            if on != off && (lim(&on_st.probes) || lim(&off_st.probes)) {
+                r.bump("excluded.limit_reached_probe", 1);
+                continue;
+            }
             if on.is_answer() && off.is_answer() {
                 r.bump("c10.cache_on_off_compared", 1);
                 if on != off {
